@@ -166,6 +166,101 @@ struct Md5Case {
 }
 
 #[derive(Debug, Clone, Serialize, Deserialize)]
+struct GuardCase {
+    /// records added to one bucket (the update log holds 60 pages x 21 = 1260)
+    n: u16,
+    /// what happens behind them, see the section text
+    then: u8,
+}
+
+fn check_saved_guards(c: &GuardCase) -> Verdict {
+    use cascette_client_storage::index::{IndexManager, UpdateStatus};
+    use cascette_crypto::EncodingKey;
+    let Ok(dir) = tempfile::Builder::new().prefix("vh-c09g-").tempdir_in(if std::path::Path::new("/dev/shm").is_dir() { "/dev/shm" } else { "/tmp" }) else {
+        return Verdict::pass().class("VACUOUS:no-tempdir");
+    };
+    let mut mgr = IndexManager::new(dir.path());
+    // keys of bucket 5
+    let mut keys: Vec<[u8; 16]> = Vec::new();
+    let mut r = Rng::new(0xC09_6A4D ^ u64::from(c.n));
+    while keys.len() < usize::from(c.n) {
+        let mut k = [0u8; 16];
+        k.copy_from_slice(&r.bytes(16));
+        if IndexManager::bucket_for_key(&EncodingKey::from_bytes(k)) == 5 {
+            keys.push(k);
+        }
+    }
+    for (i, k) in keys.iter().enumerate() {
+        if let Err(e) = mgr.add_entry(&EncodingKey::from_bytes(*k), (i % 1024) as u16, (i as u32) * 64, 40 + i as u32) {
+            return Verdict::fail("C09:saved-index-guards:add_entry-fails", format!("record {i} of {}: {e}", c.n));
+        }
+    }
+    let key = |i: usize| EncodingKey::from_bytes(keys[i.min(keys.len() - 1)]);
+    let last = keys.len() - 1;
+    let what = match c.then {
+        0 => "nothing",
+        1 => {
+            mgr.update_entry_status(&key(0), UpdateStatus::DataNonResident);
+            "update_entry_status(first key, DataNonResident)"
+        }
+        2 => {
+            mgr.update_entry_status(&key(last / 2), UpdateStatus::DataNonResident);
+            "update_entry_status(middle key, DataNonResident)"
+        }
+        3 => {
+            mgr.update_entry_status(&key(last), UpdateStatus::DataNonResident);
+            "update_entry_status(last key, DataNonResident)"
+        }
+        4 => {
+            mgr.update_entry_status(&key(last), UpdateStatus::HeaderNonResident);
+            "update_entry_status(last key, HeaderNonResident)"
+        }
+        5 => {
+            mgr.remove_entry(&key(last));
+            "remove_entry(last key)"
+        }
+        _ => {
+            mgr.update_entry(&key(last / 2), 7, 0x1234, 99);
+            "update_entry(middle key)"
+        }
+    };
+    if let Err(e) = mgr.save_all() {
+        return Verdict::fail("C09:saved-index-guards:save_all-fails", e.to_string());
+    }
+    // the update section of a saved bucket starts at the first 64 KiB boundary behind the sorted
+    // records (these buckets hold at most 23 KiB of them): pages of 512 bytes, 21 records of 24
+    let mut checked = 0usize;
+    let Ok(rd) = std::fs::read_dir(dir.path()) else { return Verdict::pass().class("VACUOUS:no-files") };
+    for e in rd.flatten() {
+        let p = e.path();
+        if p.extension().and_then(|x| x.to_str()) != Some("idx") {
+            continue;
+        }
+        let Ok(bytes) = std::fs::read(&p) else { continue };
+        let mut page = 0x1_0000usize;
+        while page + 512 <= bytes.len() {
+            for slot in 0..21 {
+                let rec = &bytes[page + slot * 24..page + slot * 24 + 24];
+                let guard = u32::from_le_bytes(rec[0..4].try_into().unwrap());
+                if guard == 0 && rec.iter().all(|b| *b == 0) {
+                    continue;
+                }
+                let want = vh_engine::refimpl::lookup3::hashlittle(&rec[4..23], 0) | 0x8000_0000;
+                checked += 1;
+                if guard != want {
+                    return Verdict::fail(
+                        "C09:saved-index-guards:record-guard-is-not-lookup3-of-its-bytes",
+                        format!("{} records in the bucket, then {what}: record at file offset {:#x} ({}) carries guard {guard:#010x}, hashlittle(bytes[4..23], 0) | 0x80000000 = {want:#010x}", c.n, page + slot * 24, rec.iter().map(|b| format!("{b:02x}")).collect::<String>()),
+                    );
+                }
+            }
+            page += 512;
+        }
+    }
+    Verdict::pass().nontrivial(checked > 0).class_if(c.n >= 1260, "update-log-full").class_if(checked == 0, "no-update-record-in-the-saved-file")
+}
+
+#[derive(Debug, Clone, Serialize, Deserialize)]
 struct UsersCase {
     ekey: [u8; 16],
     blte_size: u32,
@@ -790,6 +885,18 @@ fn main() {
                     .boxed()
             },
             check_users,
+        )
+        .shards(8),
+    );
+
+    // 6b. the guards as they end up in a saved index file, after histories that fill a bucket's
+    //     update log and then change records in it
+    ck.run(
+        Section::enumerate(
+            "saved-index-guards",
+            "IndexManager: n in {3, 20, 21, 22, 1259, 1260, 1261} records in one bucket, then one of {nothing, update_entry_status of the first / a middle / the last key to non-resident, to header-non-resident, remove of the last key, update_entry of a middle key}, save_all: every non-empty 24-byte record of the saved update section carries hashlittle(bytes[4..23], 0) | 0x80000000 by the reference lookup3".to_string(),
+            || Box::new([3u16, 20, 21, 22, 1259, 1260, 1261].into_iter().flat_map(|n| (0u8..7).map(move |then| GuardCase { n, then }))),
+            check_saved_guards,
         )
         .shards(8),
     );
